@@ -529,3 +529,73 @@ def replay_modules(rep: dict) -> bool:
     want = rep.get("key")
     probs = run_history(rep["history"])
     return bool(probs)
+
+
+# --------------------------------------------------------------------------------------------------
+# exact correspondence of the module ops (driver: `padk`, `cropk`): flip operators, integer data, both k-space keys
+def _two_tensors(res) -> str:
+    from core import ints, tensor_groups
+
+    a, b = tensor_groups(res["kspace"]), tensor_groups(res["masked_kspace"])
+    return "ok " + " | ".join(ints(g) for g in (a[0], a[1], b[0], b[1]))
+
+
+def _module_impl(spec, sspec):
+    def run():
+        smp = make_sample(sspec)
+        st = np.random.get_state()
+        try:
+            with torch.no_grad():
+                return _two_tensors(build(spec)(smp))
+        except (ValueError, TypeError, IndexError, RuntimeError, AssertionError, KeyError) as e:
+            n = err_name(e)
+            return "err " + ("ShapeError" if n == "RuntimeError" else n)
+        finally:
+            np.random.set_state(st)
+    return run
+
+
+def correspondence_modules(ctx: Ctx):
+    from core import line, tensor_groups
+
+    rng = ctx.rng
+    for _ in range(ctx.budget(60, 900)):
+        rank = rng.choice([4, 4, 5])
+        three = rank == 5 and rng.random() < 0.4
+        sspec = _sample_spec(rng, rank, {"kspace", "masked_kspace"}, h=rng.randint(1, 6), w=rng.randint(1, 6),
+                             slices=rng.randint(1, 4), coils=rng.randint(1, 2))
+        smp = make_sample(sspec)
+        gk, gm = tensor_groups(smp["kspace"]), tensor_groups(smp["masked_kspace"])
+        if rng.random() < 0.5:
+            # ---- PadKspace, default and non-default key (enum member or plain string)
+            kk = rng.choice(["enum:kspace", "enum:masked_kspace", "masked_kspace", None])
+            dims = ([sspec["slices"]] if three else []) + [sspec["h"], sspec["w"]]
+            target = [max(1, n + rng.choice([-2, -1, 0, 0, 1, 2, 3, 4])) for n in dims]
+            kw = {"pad_shape": target, "shape_form": rng.choice(["tuple", "list"])}
+            if kk:
+                kw["kspace_key"] = kk
+            spec = {"cls": "PadKspace", "ops": "flip", "kwargs": kw}
+            code = 1 if kk and "masked" in kk else 0
+            odd = any((t - n) % 2 == 1 and t > n for t, n in zip(target, dims))
+            yield {"line": line("padk", [code], gk[0], gk[1], gm[0], gm[1], target), "impl": _module_impl(spec, sspec),
+                   "nontrivial": odd, "bucket": f"PadKspace/rank{rank}/key={'masked' if code else 'kspace'}/" + ("odd" if odd else "even")}
+        else:
+            # ---- CropKspace (centre), every argument form
+            form = rng.choice(["tuple", "list", "str_tuple", "str_list", "key"])
+            dims = ([sspec["slices"]] if three else []) + [sspec["h"], sspec["w"]]
+            crop = []
+            for n in dims:
+                r = rng.random()
+                crop.append(0 if r < 0.08 and form in ("tuple", "list") else n + 1 if r < 0.12 else rng.randint(1, n))
+            recon = crop + [1]
+            if form == "key":
+                sspec = dict(sspec, recon=recon)
+            spec = {"cls": "CropKspace", "ops": "flip",
+                    "kwargs": {"crop": "reconstruction_size" if form == "key" else crop, "crop_form": form,
+                               "image_space_center_crop": True}}
+            code = {"str_tuple": 0, "str_list": 0, "key": 1, "tuple": 2, "list": 2}[form]
+            odd = any(c and (n - c) % 2 == 1 for c, n in zip(crop, dims))
+            yield {"line": line("cropk", [code], gk[0], gk[1], gm[0], gm[1], [] if form == "key" else crop,
+                                recon if form == "key" else []),
+                   "impl": _module_impl(spec, sspec), "nontrivial": odd,
+                   "bucket": f"CropKspace/rank{rank}/{form}/" + ("odd" if odd else "even")}
